@@ -57,6 +57,9 @@ CHECKS = {
  "C15": ("small-scope program enumeration (E1): every <=k-rule program of pools G,R,N,B x EDBs; every stored fact is explained post-hoc and from a recording; every proof validated by an independent proof checker; identifier/content bijection; recorder on/off store equality",
          "bounded-exhaustive: for every program/EDB in scope and EVERY fact of the evaluated store, the returned proofs are re-checked literal by literal (head and body re-instantiated from the reported bindings, leaves against store and base facts, no fact its own ancestor) and a complete proof is demanded for transform-free programs",
          "independent checker in verifmc; missing/partial proofs for goals that depend on recursive predicates are the known finding F9 (memoisation under a cycle cut) and attributed only then", "4 C15"),
+ "C05": ("exhaustive enumeration of presentations (E1) of each base program: clause orders, fact orders, variable and predicate renamings, package wrapping, store kinds, deterministic-order option; differential comparison of canonical results (hash-map iteration order additionally sampled by repeated runs)",
+         "bounded-exhaustive over the presentation dimensions for ~1400 (quick) base programs from pools G, N, A and temporal chains: every variant is evaluated by the real pipeline and must give the reference variant's canonical fact set (temporal facts with intervals)",
+         "the Go runtime's map iteration order is not enumerated by this check (re-runs sample it); order-sensitive reducers are excluded; collected lists compared as multisets", "4 C05"),
 }
 NOT_APPLICABLE = {
 }
